@@ -2,7 +2,7 @@
 //
 // Emits (1) the numeric constants the C06 parser models and theorems depend on, and
 // (2) for every modelled function a *panic-relevant fingerprint* extracted from its body:
-//   - `<F>_shape : List String` — in source order: every `if` whose condition mentions `len(`/`cap(`
+//   - `<F>_shape : List String` — in source order: every `if` whose condition mentions `len(`/`cap(` or contains an ordering comparison
 //     (suffixed " => return" when the branch ends in a return), every index / slice expression on a
 //     slice, array or string, every slice-to-array conversion, every `binary.BigEndian.*` call, every
 //     `panic(...)`, and every call of a method that panics by contract (`IP`, `Domain`, `IPPort`,
@@ -307,6 +307,22 @@ func mentionsLenCap(p *lpkg, e ast.Expr) bool {
 	return found
 }
 
+// hasOrdering: the condition contains an ordering comparison (<, <=, >, >=): these are the range guards
+// (`packetLen < 3`, `payloadStart > len(b)`, `ulen > 1`, ...).
+func hasOrdering(e ast.Expr) bool {
+	found := false
+	ast.Inspect(e, func(n ast.Node) bool {
+		if b, ok := n.(*ast.BinaryExpr); ok {
+			switch b.Op {
+			case token.LSS, token.LEQ, token.GTR, token.GEQ:
+				found = true
+			}
+		}
+		return !found
+	})
+	return found
+}
+
 func endsInReturn(b *ast.BlockStmt) bool {
 	if b == nil || len(b.List) == 0 {
 		return false
@@ -378,7 +394,7 @@ func shapeOf(p *lpkg, fd *ast.FuncDecl) (shape []string, guards []string) {
 	ast.Inspect(fd.Body, func(n ast.Node) bool {
 		switch x := n.(type) {
 		case *ast.IfStmt:
-			if mentionsLenCap(p, x.Cond) {
+			if mentionsLenCap(p, x.Cond) || hasOrdering(x.Cond) {
 				s := "if " + p.Src(x.Cond)
 				if endsInReturn(x.Body) {
 					s += " => return"
